@@ -69,6 +69,18 @@ UNITS = [
      # initial contents of the static atom cache, read from the compiled initialisers (ids as uint32 bit patterns)
      [("atom_id_cache_init", "((uint32_t *)atom_id_cache)", "ATOM_CACHE_SIZE"),
       ("atom_obj_cache_init", "((uintptr_t *)atom_obj_cache)", "ATOM_CACHE_SIZE")]),
+    # C02 format reader: constants private to the special-element writers and record-layout limits
+    ("Fmt", '#include "hdf_priv.h"\n#include "hfile_priv.h"\n#include "vg_priv.h"\n#include "hcomp_priv.h"\n#include "%s/hchunks.c"\n' % HS,
+     ["_HDF_CHK_HDR_VER", "_HDF_CHK_TBL_CLASS_VER", "LIBVSTR_LEN", "VS_ATTR_SET", "VSET_OLD_TYPES",
+      "COMP_CODE_SZIP", "COMP_CODE_IMCOMP", "COMP_CODE_JPEG", "COMP_MODEL_STDIO", "COMP_HEADER_LENGTH",
+      "DFTAG_IP8", "DFTAG_JPEG5", "DFTAG_RLE", "DFTAG_IMC", "DFTAG_CHUNKED", "DFTAG_FV", "DFTAG_NDG", "DFTAG_SDL", "DFTAG_SDU", "DFTAG_SDF",
+      "DFTAG_SDM", "DFTAG_SDC", "DFTAG_SDS", "DFTAG_CAL", "DFTAG_SDLNK", "DFTAG_SDT", "DFTAG_MA", "DFTAG_GREYJPEG5", "DFTAG_DRAW", "DFTAG_CCN", "DFTAG_MT",
+      ("SPECIAL_TAG_BIT", "0x4000"), ("USER_TAG_BIT", "0x8000")],
+     [("HDFMAGIC", "((unsigned char *)HDFMAGIC)", "MAGICLEN"),
+      ("CHK_TBL_CLASS", "((unsigned char *)_HDF_CHK_TBL_CLASS)", "strlen(_HDF_CHK_TBL_CLASS)"),
+      ("CHK_TBL_NAME", "((unsigned char *)_HDF_CHK_TBL_NAME)", "strlen(_HDF_CHK_TBL_NAME)"),
+      ("CHK_FIELD_NAMES", "((unsigned char *)_HDF_CHK_FIELD_NAMES)", "strlen(_HDF_CHK_FIELD_NAMES)")]),
+    ("Hcomp", '#include "hdf_priv.h"\n#include "%s/hcomp.c"\n' % HS, ["COMP_HEADER_VERSION", "COMP_START_BLOCK"], []),
     ("Mcache", '#include "hdf_priv.h"\n#include "mcache_priv.h"\n', ["HASHSIZE","DEF_PAGESIZE","DEF_MAXCACHE","MCACHE_DIRTY","MCACHE_PINNED","ELEM_READ","ELEM_WRITTEN","ELEM_SYNC"], []),
     # C05 bit I/O, n-bit coder, skipping Huffman coder (private macros and static tables of the .c files)
     ("Hbitio", '#include "hdf_priv.h"\n#include "%s/hbitio.c"\n' % HS,
@@ -372,7 +384,7 @@ def main():
         digest[fn] = hashlib.sha256(txt.encode()).hexdigest()[:16]
     for rel in ["hdf/src/hfile_priv.h", "hdf/src/hdf.h", "hdf/src/htags.h", "hdf/src/hlimits.h", "hdf/src/hntdefs.h", "hdf/src/crle.c",
                 "hdf/src/crle_priv.h", "hdf/src/atom.c", "hdf/src/bitvect.c", "hdf/src/bitvect_priv.h", "hdf/src/vg_priv.h", "hdf/src/hcomp.h", "hdf/src/hfile.c", "hdf/src/hfiledd.c", "hdf/src/mfan_priv.h", "hdf/src/mfan.c", "hdf/src/vgp.c", "hdf/src/vg.c",
-                "hdf/src/mcache.c", "hdf/src/mcache_priv.h", "hdf/src/dfrle.c", "hdf/src/dfsd.c", "hdf/src/dfgr.c", "hdf/src/dfr8.c", "hdf/src/mfgr.c", "mfhdf/src/hdfsds.c", "mfhdf/src/cdf.c", "hdf/src/hdf_priv.h", "hdf/src/mfgr.c", "hdf/src/mfgr.h", "hdf/src/hbitio.c", "hdf/src/hbitio_priv.h", "hdf/src/cnbit.c", "hdf/src/cnbit_priv.h", "hdf/src/cskphuff.c", "hdf/src/cskphuff_priv.h", "hdf/src/dfkswap.c", "hdf/src/dfknat.c", "hdf/src/dfconv.c",
+                "hdf/src/mcache.c", "hdf/src/mcache_priv.h", "hdf/src/hchunks.c", "hdf/src/hcomp.c", "hdf/src/hfile.h", "hdf/src/vg.h", "hdf/src/hblocks.c", "hdf/src/hextelt.c", "hdf/src/vio.c", "hdf/src/dfrle.c", "hdf/src/dfsd.c", "hdf/src/dfgr.c", "hdf/src/dfr8.c", "hdf/src/mfgr.c", "mfhdf/src/hdfsds.c", "mfhdf/src/cdf.c", "hdf/src/hdf_priv.h", "hdf/src/mfgr.c", "hdf/src/mfgr.h", "hdf/src/hbitio.c", "hdf/src/hbitio_priv.h", "hdf/src/cnbit.c", "hdf/src/cnbit_priv.h", "hdf/src/cskphuff.c", "hdf/src/cskphuff_priv.h", "hdf/src/dfkswap.c", "hdf/src/dfknat.c", "hdf/src/dfconv.c",
                 "hdf/src/mfgr_priv.h", "hdf/src/vattr.c", "hdf/src/mfgr.c", "mfhdf/src/mfsd.c", "mfhdf/src/attr.c", "mfhdf/src/cdf.c"]:
         p = os.path.join(repo, rel)
         if os.path.exists(p):
